@@ -274,6 +274,17 @@ void build()
                        }});
   // a named statement that cannot be formatted (spec does not fit the type): written with the error text; the NEXT
   // statement must be unaffected (expect_error: only the statement after it is judged)
+  g_cat.push_back(Tmpl{"ok {n} {m:>5} then bad {label:d}", "ok {} {:>5} then bad {:d}", {"n", "m", "label"}, {"", ":>5", ":d"}, false,
+                       [](Rng& r, std::string& text, std::vector<std::string>& vals)
+                       {
+                         std::string label = rstr(r) + "x";
+                         int n = static_cast<int>(r.below(1000));
+                         int m = static_cast<int>(r.below(100));
+                         text = "<error text>";
+                         vals = {};
+                         g_expect_error = true;
+                         LOG_INFO(g_lg, "ok {n} {m:>5} then bad {label:d}", n, m, label); // values are formatted before the failing one
+                       }});
   g_cat.push_back(Tmpl{"bad {label:d} then {n}", "bad {:d} then {}", {"label", "n"}, {":d", ""}, false,
                        [](Rng& r, std::string& text, std::vector<std::string>& vals)
                        {
